@@ -306,7 +306,7 @@ seq(prop="C12", lean_targets=["TransportVerif.Props.C12"], pkg="udp", run="^Test
     assumptions=["at most one Close caller per object in the concurrent phase (idempotence is exercised sequentially afterwards)", "port re-bindability and 'no goroutine left' are observed by the harness only"])
 
 _CTX_KINDS = "select,recv,wait,go"
-seq(prop="C17", lean_targets=["TransportVerif.Props.C17"], pkg="netctx", run="^TestVerifCtxConn$", component="ctx",
+seq(prop="C17", lean_targets=["TransportVerif.Props.C17"], pkg="netctx", run="^TestVerifCtxConn$", component="ctx", always_judge=("end", "fin"),
     files=["ctx_h_test.go"], quick_n=300, thorough_n=20000, search_n=2000,
     variants=[dict(name="conn", overlay_fn=_yield_k("netctx/conn.go", ["ReadContext", "WriteContext"], _CTX_KINDS)),
               dict(name="packet", run="^TestVerifCtxPacket$", overlay_fn=_yield_k("netctx/packetconn.go", ["ReadFromContext", "WriteToContext"], _CTX_KINDS)),
@@ -325,7 +325,7 @@ seq(prop="C17", lean_targets=["TransportVerif.Props.C17"], pkg="netctx", run="^T
                        "the scripted wrapped connection harness/shim/ctxh (deadline-aware blocking call, byte stream with position-dependent content)", "vrewrite, cosched"],
     assumptions=["SetReadDeadline/SetWriteDeadline of the wrapped connection do not fail", "operations of one direction are consecutive (the wrapper's mutex); Close is not interleaved"])
 
-seq(prop="C01", lean_targets=["TransportVerif.Props.C01", "TransportVerif.Props.C01Reply"], pkg="vnet", run="^TestVerifE2E$", component="vnet",
+seq(prop="C01", lean_targets=["TransportVerif.Props.C01", "TransportVerif.Props.C01Reply"], pkg="vnet", run="^TestVerifE2E$", component="vnet", always_judge=("end", "read"),
     files=["e2e_h_test.go", "nat_h_test.go"], quick_n=3000, thorough_n=100000, search_n=3000,
     nontrivial=["read-translated-source", "read-translated-dest", "read-long-path", "drop-nat-filtered", "drop-queue-full", "drop-no-socket", "loopback", "route-several", "nat-allocates"],
     rule="generated topologies of real routers and hosts (root router, 0..3 LAN routers nested up to depth 3 with NAPT in all 9 mapping x filtering behaviours, several lifetimes, the default NAT, "
